@@ -98,6 +98,9 @@ def as_list(ex, v, fr, node=None):
         raise Unsupported("iteration over a tuple")
     if k == "dict":
         return dict_keys(ex, v)
+    if k == "oarr":
+        from . import npmodels
+        return npmodels.rows_as_list(ex, v, fr)
     raise Unsupported(f"iteration over {v.ty} at {src.loc(fr.fi, node) if node is not None else ''}")
 
 
@@ -307,7 +310,7 @@ def num_kind(a, b):
 
 def binop(ex, op, a, b, fr, inplace=False, node=None):
     from . import npmodels
-    if a.ty.kind in ("arr", "g") or b.ty.kind in ("arr", "g") or a.ty.kind.startswith("elem") or b.ty.kind.startswith("elem"):
+    if a.ty.kind in ("arr", "g", "oarr") or b.ty.kind in ("arr", "g", "oarr") or a.ty.kind.startswith("elem") or b.ty.kind.startswith("elem"):
         return npmodels.binop(ex, op, a, b, fr, inplace, node)
     nk = num_kind(a, b)
     sym = {"Add": "+", "Sub": "-", "Mult": "*", "Div": "/"}.get(op)
@@ -836,7 +839,7 @@ def _len(ex, fv_, args, kwargs, fr, node):
         return vint(llen(ex, v))
     if v.ty.kind == "dict":
         return vint(ex.hmap("$dlen", INT)[v.t])
-    if v.ty.kind in ("arr", "g"):
+    if v.ty.kind in ("arr", "g", "oarr"):
         return npmodels.length(ex, v)
     if v.ty.kind == "tuple":
         return vint(len(v.items))
